@@ -78,7 +78,7 @@ func faultKind(f string) string {
 		return "illegal-flag"
 	case strings.HasPrefix(f, "ld"):
 		return "leading-dimension"
-	case f == "lwork":
+	case f == "lwork", f == "queryEmptyWork":
 		return "lwork"
 	case len(f) <= 4 && f != "":
 		return "dimension"
@@ -115,8 +115,15 @@ func checkFault(c Case) *vk.Failure {
 		return vk.Failf("invalid-argument-runtime-fault/"+c.R+"/"+c.Fault, "%s: call with invalid argument %q ended in a runtime fault instead of a package panic: %s", c.R, c.Fault, e.res.Text)
 	}
 	for _, o := range e.ops {
-		if d := o.diff(true, false); d != "" {
+		if d := o.diff(true, o == e.workOp); d != "" {
 			return vk.Failf("write-before-panic/"+c.R+"/"+c.Fault, "%s: invalid argument %q was rejected (%s) but an operand was modified first: %s", c.R, c.Fault, e.res.Text, d)
+		}
+	}
+	// Only work[0] of an lwork routine changed: reported under its own key, it
+	// is the least harmful way of writing before validating.
+	if e.workOp != nil {
+		if d := e.workOp.diff(true, false); d != "" {
+			return vk.Failf("write-before-panic-work0/"+c.R, "%s: invalid argument %q was rejected (%s) but work[0] was written first: %s", c.R, c.Fault, e.res.Text, d)
 		}
 	}
 	return nil
